@@ -82,7 +82,8 @@ func verifyFunction(p *Program, fn *ssa.Function, c *Contract) (s *Session, err 
 			case evalErr:
 				err = fmt.Errorf("%s: stale or ill-formed contract: %s", c.Key(), e.msg)
 			default:
-				panic(r)
+				// a failure of the generator itself on code it has not seen before is an undecided function, not a crash of the check
+				err = fmt.Errorf("%s: outside the modelled subset: internal error of the generator: %v", c.Key(), r)
 			}
 		}
 	}()
